@@ -17,14 +17,20 @@ C19_Recovers(o) ==
             \E d \in (p + 1) .. Len(o) : o[d].k = "delivered" /\ o[d].tag = o[p].tag
 (* the background listener never busy-loops: at most 1000 iterations per second *)
 C19_NoSpin(o) == \A i \in Idx(o) : o[i].k = "rate" => o[i].n <= 250
-(* a send reports success only if the envelope reached the server on an established session *)
-(* (claimed for sends made on a healthy session: before the first fault, and after recovery; a *)
-(* write that races with the loss of the connection may be accepted by the local socket)       *)
+(* a send reports success only if the envelope was written to an established session.  What a *)
+(* server observes of that: the send made after everything settled is received; and of the     *)
+(* sends made on the first session before the fault the received ones are a prefix in send     *)
+(* order (what was written last may be lost unread with the connection, but a success that was *)
+(* never written would leave a gap)                                                            *)
 FirstFault(o) == LET F == {i \in Idx(o) : o[i].k = "fault"} IN
                  IF F = {} THEN Len(o) + 1 ELSE CHOOSE i \in F : \A j \in F : i <= j
+RcvdTags(o) == {o[j].tag : j \in {n \in Idx(o) : o[n].k = "recv"}}
 C19_SendTruth(o) ==
-  \A i \in Idx(o) : (o[i].k = "send" /\ o[i].res = "ok" /\ (i < FirstFault(o) \/ o[i].tag = "u-after"))
-                       => \E j \in Idx(o) : o[j].k = "recv" /\ o[j].tag = o[i].tag
+  LET R == RcvdTags(o)
+      P == {i \in Idx(o) : i < FirstFault(o) /\ o[i].k = "send" /\ o[i].res = "ok"}
+      G == {i \in P : o[i].tag \in R}
+  IN /\ \A i \in Idx(o) : (o[i].k = "send" /\ o[i].res = "ok" /\ o[i].tag = "u-after") => o[i].tag \in R
+     /\ \A i \in P : (\E j \in G : i < j) => i \in G
 C19_Closes(o) == \A i \in Idx(o) : o[i].k = "end" => o[i].res = "closed"
 Ops(o) == << <<"C19_Recovers", C19_Recovers(o)>>, <<"C19_NoSpin", C19_NoSpin(o)>>,
              <<"C19_SendTruth", C19_SendTruth(o)>>, <<"C19_Closes", C19_Closes(o)>> >>
